@@ -250,7 +250,9 @@ pub fn gen(r: &mut Rng, thorough: bool, v: &mut Vec<(String, String)>) {
                 _ => v.push(("tm_feat".into(), format!("{} {} {}", ma, h0, ph))),
             }
             let d0 = na::distance(&p, &mesh.project_local_point(&p, so).point);
-            let md = if lat { *r.pick(&[0.0, 0.5, 1.0, 1.0, 2.0]) * d0 + *r.pick(&[0.0, 0.0, 0.25]) } else { r.uniform(0.0, 2.0 * d0 + 0.1) };
+            // bounds: 0, fractions / multiples of the true distance, the true distance itself (tie).  When the point is within
+            // rounding noise of the surface the verdict depends on the node Aabbs of the Qbvh (not modelled): use 0 or 1/4 then.
+            let md = if d0 < 1e-9 { *r.pick(&[0.0, 0.25]) } else if lat { *r.pick(&[0.0, 0.5, 1.0, 1.0, 2.0]) * d0 + *r.pick(&[0.0, 0.0, 0.25]) } else { r.uniform(0.0, 2.0 * d0 + 0.1) };
             // the part reached by the BOUNDED traversal (ties / last-ulp pruning can differ from the unbounded one)
             let hb = std::panic::catch_unwind(std::panic::AssertUnwindSafe(|| mesh.project_local_point_and_get_location_with_max_dist(&p, so, md).map(|x| x.1 .0))).unwrap_or(None).unwrap_or(hs);
             v.push((if r.bool() { "tm_maxd" } else { "tm_lmaxd" }.into(), format!("{} {} {} {} {}", ma, hb, ph, b(so), hx(md))));
